@@ -82,6 +82,8 @@ class ExactMarginalLogLikelihood(MarginalLogLikelihood):
         res = output.log_prob(target)
         res = self._add_other_terms(res, params)
 
-        # Scale by the amount of data we have
-        num_data = function_dist.event_shape.numel()
+        # Scale by the amount of data we have (with masked NaN observations: the number of observed values)
+        num_data = target.shape[-1] if settings.observation_nan_policy.value() == "mask" else (
+            function_dist.event_shape.numel()
+        )
         return res.div_(num_data)
